@@ -25,6 +25,36 @@ CHECKS = {
    note=L2_NOTE),
 }
 
+def l1(level, ref, technique, text):
+    return dict(level=level, engine="l1", ref=ref, technique=technique, text=text, note=L1_NOTE)
+
+CHECKS.update({
+ "C10": l1("exploration", "§3 C10",
+   "deterministic simulation: seeded task-schedule search over the real RepartitionExec with simulated sources/memory/disk; exactly-once by hidden row id, routing function and ordering oracles, quiescence invariants",
+   "Real RepartitionExec (round-robin, hash on 1-3 keys, preserve_order) over scripted input partitions, consumed by one simulated task per output, under memory pressure that forces spilled batches, tiny spill files, early drops of some outputs. Every input row must arrive exactly once at the output hash % n names (or at any output for round-robin), sorted where order is preserved; rows to dropped outputs are excused; afterwards no task, reservation, spill file or input stream may be left."),
+ "C02": l1("exploration", "§3 C02",
+   "deterministic simulation: seeded schedules x random semantic-neutral configurations x partitionings of the same SQL query through the real planner; differential oracle against baseline configuration or reference evaluator",
+   "The property is an independence statement, so the oracle is differential: one generated query (joins, aggregates, sorts, windows, unions, subqueries) over generated tables split into 1-4 scripted partitions runs under a random configuration, 1-3 copies concurrently in one session, under a seeded task schedule; the result must equal the independent reference where one exists, else the single-partition default-configuration run."),
+ "C05": l1("exploration", "§3 C05/C06/C08",
+   "deterministic simulation: seeded schedules/partitionings/memory budgets of generated join queries through the real planner; nested-loop reference with SQL three-valued logic",
+   "Explores the environment dimension of the statement (arrival interleavings of both sides and sibling partitions, batching, partitioning, memory budget) for every join operator the planner can pick, against an independent nested-loop reference on small Int/Utf8 data. Not a claim about every key type."),
+ "C06": l1("exploration", "§3 C05/C06/C08",
+   "deterministic simulation: seeded schedules/partitionings/memory budgets of generated aggregation queries; reference GROUP BY",
+   "Single, partial+final, repartitioned, skipped-partial, TopK and spilling aggregation strategies are selected by generated configuration and memory pressure; results are compared with a reference GROUP BY (count, sum, min, max, count distinct; DISTINCT; grouped top-k)."),
+ "C08": l1("exploration", "§3 C05/C06/C08",
+   "deterministic simulation: seeded schedules/partitionings/memory budgets of generated ORDER BY [LIMIT] queries; reference stable sort, exact sequence",
+   "In-memory, spilling (multi-level merge with tiny spill files) and sort-preserving-merge paths under seeded schedules; the exact output sequence must equal a reference sort with the requested direction/null placement and id tie-break, with LIMIT the exact prefix."),
+ "C18": l1("exploration", "§3 C18",
+   "deterministic simulation with resource faults: bounded Greedy/FairSpill pools from 0 bytes to ample + noisy neighbour, simulated spill disk; oracle: expected rows or ResourcesExhausted, then release invariants",
+   "Generated queries of every spilling operator family under memory limits; the outcome must be the exact expected result or an error with ResourcesExhausted in its chain; never a panic, hang (watchdog = quiescence without completion) or wrong result; afterwards pool 0, no spill file, no live task."),
+ "C19": l1("fault_enumeration", "§3 C19",
+   "deterministic simulation with cancellation injection: output stream dropped at swept points under seeded schedules; quiescence invariants (tasks, input streams, reservations, spill files)",
+   "The crash point is the drop of the result stream (before first poll, after 1..3 batches; merged or per-partition consumption). The simulator then runs to quiescence (virtual time) and requires that no background task is alive, every input stream is released, the pool is at 0 and no spill file exists."),
+ "C20": l1("fault_enumeration", "§3 C20",
+   "deterministic simulation with fault injection: one scripted source error / source panic / spill-disk failure per run at a swept position, seeded schedules; oracle: error surfaces or result complete, no hang, release invariants",
+   "One fault per run, position swept by the generator; a fault counts once it fired. From then on the query must end with an error (or the injected panic re-raised) or with the complete expected result; a truncated success, a hang or a foreign panic is a violation; afterwards the C19 release invariants."),
+})
+
 NA = {
  "C01": "pure function of query and data; no schedule, clock, fault or I/O in the statement (its schedule/configuration dimension is C02)",
  "C03": "pure plan-to-plan rewrite equivalence over programs and inputs; nothing a scheduler or fault injector can vary",
@@ -62,7 +92,7 @@ NA = {
  "C51": "pure string functions",
  "C52": "pure string functions",
 }
-PLANNED = ["C02","C05","C06","C08","C10","C18","C19","C20","C21","C25","C26","C31","C40","C50","C53"]
+PLANNED = ["C21","C25","C26","C31","C40","C50","C53"]
 
 def main():
     props = [json.loads(l)["id"] for l in open(os.path.join(ROOT, "properties.jsonl"))]
